@@ -97,7 +97,8 @@ func c09Encapsulation(c *Ctx, p *Prog) {
 			for top.Parent() != nil {
 				top = top.Parent()
 			}
-			if recvTypeName(top) != cbOwner {
+			// (methods of the cell type itself belong to the buffer's implementation)
+			if recvTypeName(top) != cbOwner && recvTypeName(top) != cellOwner {
 				bad = append(bad, fmt.Sprintf("%s reads cell.%s at %s", fn.Name(), a.Field.Name, p.pos(a.Instr.Pos())))
 			}
 		}
